@@ -3,6 +3,7 @@ import NauyacaVerif.Url.Proxy
 import NauyacaVerif.Url.Router
 import NauyacaVerif.Srv.Render
 import NauyacaVerif.Srv.RelayModel
+import NauyacaVerif.Url.WireModel
 namespace NauyacaVerif.Drv.ProxyD
 open NauyacaVerif.Drv Url
 
@@ -20,9 +21,47 @@ def showRender (r : Srv.Resp) : String :=
   let hb := Srv.render r
   s!"ok {toHex hb.1} {toHex hb.2}"
 
+inductive Loc where
+  | static (pre : Str)
+  | proxy (pre : Str) (strip : Bool) (up : Str)
+
+def Loc.pre : Loc → Str
+  | .static p => p
+  | .proxy p _ _ => p
+
+/-- loc ::= `s:<prefix>` | `x:<prefix>:<strip 0|1>:<upstream>` (code points) -/
+def parseLoc (s : String) : Option Loc :=
+  match s.splitOn ":" with
+  | ["s", p] => some (.static (cpsChars p))
+  | ["x", p, st, up] => if st == "0" || st == "1" then some (.proxy (cpsChars p) (st == "1") (cpsChars up)) else none
+  | _ => none
+
+def lowerA (s : Str) : Str := s.map lowerAscii
+def mkEnv (ip nf : String) : Env := { ipLiteralOk := fun _ => ip == "1", nfkcOk := fun _ => nf == "1", lowerU := lowerA }
+
+/-- the whole chain for one request line: `GeminiRequest.from_line` → location router → `ProxyHandler` URL
+    construction → the proxy client's `validate_url` / `parse_url` (whom it contacts and what it sends) -/
+def proxyCase (line : Str) (env1 env2 : Env) (locs : List Loc) : String :=
+  match validated env1 1024 line with
+  | .error _ => "ok rejected"
+  | .ok R =>
+    match route (locationRoutes (locs.map Loc.pre)) R.path with
+    | none => "ok default"
+    | some i =>
+      match locs[i]? with
+      | none => "bad-op"
+      | some (.static _) => s!"ok {i} static"
+      | some (.proxy pre strip up) =>
+        let url := proxyUrl up (locPrefix pre) strip R.path R.query
+        match validated env2 1024 url with
+        | .error _ => s!"ok {i} {showCps url} invalid"
+        | .ok P => s!"ok {i} {showCps url} {showCps P.host} {P.port} {showCps P.normalized}"
+
 /-- line-protocol handler of this area; `none` = not one of ours
     `proxy <upstream> <prefix> <strip:0|1> <path> <query>`  (code points)  → `ok <url>`
     `route <path> <r;r;…|->`   r ::= `e:<pattern>` | `p:<pattern>`        → `ok <index>` | `ok default`
+    `pcase <line> <ip1> <nf1> <ip2> <nf2> <loc;loc;…|->`  loc ::= `s:<prefix>` | `x:<prefix>:<strip>:<upstream>`
+         → `ok rejected` | `ok default` | `ok <i> static` | `ok <i> <url> invalid` | `ok <i> <url> <host> <port> <request line>`
     `relay resp <status> <meta> <n | b:hex | s:cps>` | `relay fail <t|c|o> <msg>` → `ok <header-hex> <body-hex>` -/
 def handle : List String → Option String
   | ["proxy", up, pre, strip, path, query] =>
@@ -42,6 +81,11 @@ def handle : List String → Option String
     match (if k == "t" then some Srv.FailClass.timeout else if k == "c" then some .connection else if k == "o" then some .other else none) with
     | some cls => some (showRender (Srv.proxyRespond (.fail cls (cpsNat msg))))
     | none => some "bad-op"
+  | ["pcase", line, ip1, nf1, ip2, nf2, locs] =>
+    match (if locs == "-" then some [] else (locs.splitOn ";").mapM parseLoc) with
+    | none => some "bad-op"
+    | some ls => some (proxyCase (cpsChars line) (mkEnv ip1 nf1) (mkEnv ip2 nf2) ls)
+  | "pcase" :: _ => some "bad-op"
   | "proxy" :: _ => some "bad-op"
   | "route" :: _ => some "bad-op"
   | "relay" :: _ => some "bad-op"
